@@ -220,6 +220,73 @@ theorem call_disables_include (E : Env) (G : Frame) (ns : NS) (tn : List Node) (
     render E (G.copied ns tn) st (.include name bind args) = .error .disabledTag :=
   include_disabled E _ st name bind args rfl
 
+/-! ## Inside an overriding `{% block %}` (the block-scoped copy) and the bound variable -/
+
+/-- the context an overriding block is rendered in passes the isolated global data on unchanged, although its own
+`globals` hold the base template's whole scope … -/
+theorem block_copy_inherits_iso (G : Frame) (p : List NS) (l : NS) (c : List (String × Int)) :
+    (G.blockCopied p l c).iso = G.iso := rfl
+
+/-- … and keeps the tags its template may not use disabled. -/
+theorem block_copy_keeps_disabled (G : Frame) (p : List NS) (l : NS) (c : List (String × Int)) :
+    (G.blockCopied p l c).noInclude = G.noInclude := rfl
+
+/-- **Sentence 1 for a `render` tag placed inside an overriding block.**  The base template's state — its pushed scopes
+`p`, its assigned / captured variables `l`, its counters `c`, all of which the block itself can read — and the block's
+own state may differ freely: if the tag's arguments and bound variable evaluate alike, the rendered partial prints the
+same. -/
+theorem render_isolated_in_block (E : Env) (G : Frame) (p₁ p₂ : List NS) (l₁ l₂ : NS) (c₁ c₂ : List (String × Int))
+    (st₁ st₂ : St) (name : String) (bind : Option (Bool × Expr × Option String)) (args : List (String × Expr))
+    (ha : evalArgs E (G.blockCopied p₁ l₁ c₁) st₁ args = evalArgs E (G.blockCopied p₂ l₂ c₂) st₂ args)
+    (hb : ∀ e, bindExpr bind = some e → eval E (G.blockCopied p₁ l₁ c₁) st₁ e = eval E (G.blockCopied p₂ l₂ c₂) st₂ e) :
+    outOf (render E (G.blockCopied p₁ l₁ c₁) st₁ (.render name bind args)) =
+      outOf (render E (G.blockCopied p₂ l₂ c₂) st₂ (.render name bind args)) :=
+  render_isolated E _ _ st₁ st₂ name bind args rfl rfl ha hb
+
+/-- … with literal arguments: for every pair of base-template states and block states. -/
+theorem render_isolated_in_block_locals (E : Env) (G : Frame) (p₁ p₂ : List NS) (l₁ l₂ : NS)
+    (c₁ c₂ : List (String × Int)) (st₁ st₂ : St) (name : String) (args : List (String × Expr)) (h : allLit args = true) :
+    outOf (render E (G.blockCopied p₁ l₁ c₁) st₁ (.render name none args)) =
+      outOf (render E (G.blockCopied p₂ l₂ c₂) st₂ (.render name none args)) :=
+  render_isolated_in_block E G p₁ p₂ l₁ l₂ c₁ c₂ st₁ st₂ name none args (evalArgs_lits E _ _ st₁ st₂ args h)
+    (by intro e he; simp [bindExpr] at he)
+
+/-- **Sentence 2 for a macro call placed inside an overriding block.** -/
+theorem call_isolated_in_block (E : Env) (G : Frame) (p₁ p₂ : List NS) (l₁ l₂ : NS) (c₁ c₂ : List (String × Int))
+    (st₁ st₂ : St) (name : String) (pos : List Expr) (kw : List (String × Expr)) (m : Macro)
+    (hm₁ : dictGet st₁.macros name = some m) (hm₂ : dictGet st₂.macros name = some m)
+    (ha : callNamespace E (G.blockCopied p₁ l₁ c₁) st₁ m pos kw = callNamespace E (G.blockCopied p₂ l₂ c₂) st₂ m pos kw) :
+    outOf (render E (G.blockCopied p₁ l₁ c₁) st₁ (.call name pos kw)) =
+      outOf (render E (G.blockCopied p₂ l₂ c₂) st₂ (.call name pos kw)) :=
+  call_isolated E _ _ st₁ st₂ name pos kw m rfl rfl rfl hm₁ hm₂ ha
+
+/-- **Sentence 1 (the bound variable arrives).**  `{% render 'p' with e [as alias] %}` (or `for` over a value that is not
+array-like): whatever the caller's state and the global data are — no global data at all and no keyword arguments
+included — the partial is rendered in a context in which the bound name resolves to the value of `e`, unless the
+partial itself rebinds it. -/
+theorem bound_variable_arrives (E : Env) (G : Frame) (st : St) (name : String) (loop : Bool) (e : Expr)
+    (alias : Option String) (args : List (String × Expr)) (body : List Node) (ns : NS) (v : Val)
+    (hl : lookupT E.templates name = some body) (ha : evalArgs E G st args = .ok ns) (hv : eval E G st e = .ok v)
+    (hd : ¬ G.copyDepth > E.depth) (hnl : (if loop then arrayLike v else none) = none)
+    (hu : (loop && E.cfg.strictUndef && v.isUndef) = false) :
+    render E G st (.render name (some (loop, e, alias)) args) =
+      keepRes st (renderPartial E (G.copied (dictSet (dictOf ns) (bindKey name alias) v) body) St.fresh body) ∧
+    ∀ stp : St, lookupChain stp.pushed (bindKey name alias) = none → dictGet stp.locals (bindKey name alias) = none →
+      (view (G.copied (dictSet (dictOf ns) (bindKey name alias) v) body) stp).root (bindKey name alias) = some v := by
+  refine ⟨?_, ?_⟩
+  · simp only [render, hl, ha, hd, hv, hu, hnl, dite_false, Bool.false_eq_true, if_false]
+  · intro stp h1 h2
+    simp [View.root, view, Frame.copied, lookupChain_append, lookupChain, h1, h2, dictGet_dictSet]
+
+/-- … and in every iteration of `{% render 'p' for items [as alias] %}` the bound name resolves to the item. -/
+theorem bound_item_arrives (G : Frame) (args : NS) (pg : List NS) (key : String) (n i : Nat) (itm : Val) (stp : St)
+    (h1 : lookupChain stp.pushed key = none) (h2 : dictGet stp.locals key = none) :
+    (view { G with globals := dictSet (dictSet args "forloop" (forloopDrop key n i .undef)) key itm :: pg,
+                   iso := dictSet (dictSet args "forloop" (forloopDrop key n i .undef)) key itm :: pg } stp).root key
+      = some itm := by
+  simp [View.root, view, lookupChain_append, lookupChain, h1, h2, dictGet_dictSet]
+
+
 /-! ## Non-vacuity -/
 
 def E1 : Env := { cfg := { strictUndef := false, stringSeq := false, stringFL := false }, depth := 30,
